@@ -470,6 +470,10 @@ func genRigCase(r *rng.R) rigIn {
 				add(build("body-malformed", vals{"body": `{"name":`}, "", nil))
 				add(build("body-trailing-data", vals{"body": rng.Pick(r, []string{`{"name":"x","count":1} trailing`, `{"name":"x","count":1}{"name":"y","count":2}`, `{"name":"x","count":1}]`})}, "", nil))
 			}
+			// the same path under a verb nobody annotated: not served, and above all the controller method must not run
+			ov := build("other-verb", nil, "", nil)
+			ov.Method, ov.Body, ov.Form = "OPTIONS", "", nil
+			add(ov)
 			add(rigReq{Route: "", Kind: "undocumented", Method: verb, Path: fmt.Sprintf("%s/nope%d_%d", strings.TrimSuffix(prefix, "/"), ci, mi)})
 		}
 		p.Controllers = append(p.Controllers, c)
